@@ -16,7 +16,7 @@ Covers(sel, name) == IF sel.wild THEN Len(name) > Len(sel.path) /\ IsPrefix(sel.
 Trace == ndJsonDeserialize(IOEnv.TRACE)
 VARIABLES l, failed, stat, health   \* health: service name -> status set on the server
 tvars == <<l, failed, stat, health>>
-Stat0 == [cases |-> 0, pairs |-> 0, bound |-> 0, mustBind |-> 0, regErrors |-> 0, panics |-> 0, hsets |-> 0, hchecks |-> 0]
+Stat0 == [cases |-> 0, pairs |-> 0, bound |-> 0, mustBind |-> 0, regErrors |-> 0, panics |-> 0, hsets |-> 0, hchecks |-> 0, hwatches |-> 0]
 TInit == l = 1 /\ failed = {} /\ stat = Stat0 /\ health = [s \in {""} |-> "SERVING"]   \* grpc health: "" is SERVING at start
 IsEv(e) == l <= Len(Trace) /\ Trace[l].ev = e
 
@@ -56,7 +56,18 @@ THCheck ==
   /\ stat' = [stat EXCEPT !.hchecks = @ + 1]
   /\ l' = l + 1 /\ UNCHANGED health
 
-TNext == TSel \/ THSet \/ THCheck \/ THReset
+\* Watch over a WebSocket session on the same route: the first frame is the service's current status; a service the
+\* health server does not know is reported SERVICE_UNKNOWN (Watch's contract), never another service's status
+THWatch ==
+  /\ IsEv("HWatch")
+  /\ LET e == Trace[l]
+         ok == /\ e.http = 101
+               /\ e.status = (IF e.service \in DOMAIN health THEN health[e.service] ELSE "SERVICE_UNKNOWN")
+     IN failed' = failed \cup (IF ok THEN {} ELSE {<<e.case, l, "Healthz">>})
+  /\ stat' = [stat EXCEPT !.hwatches = @ + 1]
+  /\ l' = l + 1 /\ UNCHANGED health
+
+TNext == TSel \/ THSet \/ THCheck \/ THReset \/ THWatch
 TSpec == TInit /\ [][TNext]_tvars
 Report == l > Len(Trace) =>
             PrintT(<<"REPORT", ToJson([consumed |-> l - 1, len |-> Len(Trace), failed |-> failed, stat |-> stat])>>)
